@@ -380,6 +380,79 @@ fn c09_state_roundtrip_2actors_1version() {
     state_roundtrip(2, 1);
 }
 
+/// SyncStateV1 encoder against the wire layout the decoder reads (encode side only; composing
+/// encode and decode in one harness exhausts the solver): every length prefix describes what follows
+///   actor[16] | heads: u32 n, n x (actor[16], u64) | need: u64 n, n x (actor[16], u64 k, k x (u64,u64))
+///   | partial_need: u64 n, n x (actor[16], u64 m, m x (u64 version, u64 k, k x (u64,u64))) | Option<ts>
+fn state_encode_layout(actors_with_partials: usize, versions_per_actor: usize) {
+    let a1 = ActorId(Uuid::from_bytes([1; 16]));
+    let a2 = ActorId(Uuid::from_bytes([2; 16]));
+    let mut st = SyncStateV1 { actor_id: ActorId(Uuid::from_bytes([9; 16])), ..Default::default() };
+    let mut i = 0;
+    while i < actors_with_partials {
+        let mut m = HashMap::new();
+        let mut j = 0;
+        while j < versions_per_actor {
+            let mut seqs = Vec::new();
+            seqs.push(any_range_s());
+            m.insert(CrsqlDbVersion(10 + j as u64), seqs);
+            j += 1;
+        }
+        st.partial_need.insert(if i == 0 { a1 } else { a2 }, m);
+        i += 1;
+    }
+    st.last_cleared_ts = None;
+    let bytes = match <SyncStateV1 as Writable<LE>>::write_to_vec(&st) {
+        Ok(b) => b,
+        Err(_) => {
+            assert!(false, "encode failed");
+            return;
+        }
+    };
+    let u64_at = |o: usize| -> u64 {
+        let mut v = 0u64;
+        let mut k = 0;
+        while k < 8 {
+            v |= (bytes[o + k] as u64) << (8 * k);
+            k += 1;
+        }
+        v
+    };
+    // actor 16, heads len u32 (= 0), need len u64 (= 0), partial_need len u64
+    assert!(bytes[16] == 0 && bytes[17] == 0 && bytes[18] == 0 && bytes[19] == 0, "C09-RT: heads length prefix");
+    assert!(u64_at(20) == 0, "C09-RT: need length prefix");
+    assert!(u64_at(28) == actors_with_partials as u64, "C09-RT: partial_need length prefix is not the number of actors");
+    // each actor block: actor[16], versions_len u64, then per version: version u64, ranges_len u64 (= 1), range 16
+    let per_actor = 16 + 8 + versions_per_actor * (8 + 8 + 16);
+    let mut o = 36;
+    let mut a = 0;
+    while a < actors_with_partials {
+        assert!(u64_at(o + 16) == versions_per_actor as u64, "C09-RT: an actor's partial-version count prefix does not describe what follows");
+        let mut j = 0;
+        while j < versions_per_actor {
+            assert!(u64_at(o + 24 + j * 32 + 8) == 1, "C09-RT: sequence-range count prefix");
+            j += 1;
+        }
+        o += per_actor;
+        a += 1;
+    }
+    assert!(bytes.len() == o + 1 && bytes[o] == 0, "C09-RT: encoded length / last_cleared_ts marker");
+    core::mem::forget(st);
+    core::mem::forget(bytes);
+}
+#[kani::proof]
+#[kani::unwind(10)]
+#[kani::stub(alloc::fmt::format, stub_format)]
+fn c09_state_encode_layout_1actor_2versions() {
+    state_encode_layout(1, 2);
+}
+#[kani::proof]
+#[kani::unwind(10)]
+#[kani::stub(alloc::fmt::format, stub_format)]
+fn c09_state_encode_layout_2actors_1version() {
+    state_encode_layout(2, 1);
+}
+
 /// SqliteValue: every integer, every f64 bit pattern (NaN compared by bits), text / blob <= 2 bytes
 #[kani::proof]
 #[kani::unwind(8)]
